@@ -158,3 +158,8 @@ Definition dir_shift (al : R) (a b a' b' : option R) : Prop :=
 Definition dir_negated (a b a' b' : option R) : Prop :=
   forall x y, a = Some x -> b = Some y -> x <> 0 \/ y <> 0 ->
   exists d d', odir a b = Some d /\ odir a' b' = Some d' /\ same_dir (- d) d'.
+
+(* physically valid inputs: energies are non-negative (or missing), moment pairs lie in the unit disc
+   (a missing moment counts as 0, as in _spectral_weighted) *)
+Definition nonneg_or_nan (x : option R) : Prop := match x with Some v => 0 <= v | None => True end.
+Definition in_disc (a b : option R) : Prop := fill0 a * fill0 a + fill0 b * fill0 b <= 1.
